@@ -235,8 +235,10 @@ func (e *Engine) doShape(s *slot, op Op) error {
 	}
 	if s.twin != nil && e.asserted("twin") {
 		td := VerifDumpOf(s.twin)
-		if a, b := canonicalDump(d, true), canonicalDump(td, true); a != b {
-			return violf("emptied-then-reused tree and fresh tree differ structurally:\n%s\nvs fresh\n%s", a, b)
+		// size classes are not compared: the property is about behaviour, and apart from the
+		// classes the shape is a function of the key set (C11)
+		if a, b := canonicalDump(d, false), canonicalDump(td, false); a != b {
+			return violf("emptied-then-reused tree and fresh tree differ structurally (size classes aside):\n%s\nvs fresh\n%s", a, b)
 		}
 	}
 	e.fact("shape")
